@@ -101,3 +101,12 @@ claim("C07", "LsTime.tla contains the calendar arithmetic (days<->civil, leap ru
       "every listing are also checked inside FtpCore trace validation.", "TLC judgement of recorded formatter/parser pairs and client listings against LsTime.tla",
       note="Trusted base: TLC; only fixed-offset zones (DST zones excluded: the year-less format is ambiguous in the repeated hour); "
            "only the C/POSIX locales exist in the sandbox; years 1970-2037 (32-bit integers in TLC).")
+claim("C19", CORE_TEXT + "C19 (server side): a victim session runs a corpus script while 1-2 hostile sessions send undecodable bytes, "
+      "over-limit lines, NUL/LF-only/blank lines, mutated arguments and fragments cut by EOF; the interleaved execution must be a "
+      "behaviour of the multi-session model and the victim's transcript must equal its solo run. (client side): ParserContract.tla states "
+      "the contract of the client's entry points; a mutation product over unix/windows/MLSx line templates, PASV/EPSV/257 payloads and "
+      "dates goes through the real parsers, and Client.list() runs against a scripted server sending '.', '..', name cycles, undecodable "
+      "and unparsable lines under a step budget; TLC judges every outcome.", "TLA+ trace validation with hostile sessions + TLC judgement of parser outcomes (ParserContract.tla)",
+      note=CORE_NOTE + " For the pure parsers TLC acts as the judge of a bounded mutation grammar, not as a behavioural model: this decides the "
+      "property on that family, not on all byte strings (coverage-guided fuzzing would be the fitting tool and is outside this technique family). "
+      "Pipelined hostile input is not covered.")
